@@ -245,3 +245,44 @@ Proof.
   - apply SS_dedup. apply esort_strongly_sorted. exact T.
   - apply esort_strongly_sorted. exact T.
 Qed.
+
+(* ---- LIMIT: the answer is a legal cut ---- *)
+Definition nolimit_sel (s : sel) : sel := match s with Sel d pr w gb ob _ => Sel d pr w gb ob None end.
+Definition noagg_sel (s : sel) : bool :=
+  match s with Sel _ pr _ gb _ _ => match aggs_of pr, gb with [], [] => true | _, _ => false end end.
+
+Definition apply_limit_rows {A} (l : option N) (r : list A) : list A :=
+  match l with Some n => firstn (N.to_nat n) r | None => r end.
+
+Lemma firstn_map {A B} (f : A -> B) : forall n l, firstn n (map f l) = map f (firstn n l).
+Proof. induction n; intros [|x l]; cbn; auto. f_equal. apply IHn. Qed.
+
+Lemma ob_le_nil_trans : Relations_1.Transitive (ob_le []).
+Proof. intros a b c _ _. unfold ob_le. cbn. discriminate. Qed.
+
+(* SELECT [DISTINCT] cols .. [ORDER BY keys] [LIMIT n] without aggregates: what finalize_select returns is the first
+   min(n, total) rows of SOME sequence that (i) is a permutation of the algebra's full answer (before the cut) and
+   (ii) is sorted by the keys - a legal cut.  Without ORDER BY the comparator is trivially transitive (ob_le_nil_trans). *)
+Theorem answer_limit : forall s rows rows', noagg_sel s = true -> rows ≡ₚ rows' ->
+  let ob := match s with Sel _ _ _ _ ob _ => ob end in
+  let lim := match s with Sel _ _ _ _ _ l => l end in
+  Relations_1.Transitive (ob_le ob) ->
+  exists seq,
+    finalize_select s rows = apply_limit_rows lim (render (columns s) seq) /\
+    render (columns s) seq ≡ₚ render (columns s) (modifiers (nolimit_sel s) rows') /\
+    StronglySorted (ob_le ob) seq.
+Proof.
+  intros [d pr w gb ob lim] rows rows' NA P ob' lim' T. subst ob' lim'. unfold noagg_sel in NA.
+  destruct (aggs_of pr) eqn:Ea; [|discriminate]. destruct gb; [|discriminate].
+  assert (PS : plain_sel (Sel d pr w [] ob None) = true) by (unfold plain_sel; rewrite Ea; reflexivity).
+  destruct (answer_sorted (Sel d pr w [] ob None) rows PS T) as (seq & E & S).
+  exists seq. split; [|split; auto].
+  - unfold finalize_select, eaggregate in E. rewrite Ea in E.
+    unfold finalize_select, eaggregate. rewrite Ea.
+    change (columns (Sel d pr w [] ob lim)) with (columns (Sel d pr w [] ob None)).
+    unfold apply_limit_rows. destruct lim as [n|]; [|exact E].
+    etransitivity; [|apply (f_equal (firstn (N.to_nat n))); exact E].
+    unfold render. rewrite firstn_map. reflexivity.
+  - change (columns (Sel d pr w [] ob lim)) with (columns (Sel d pr w [] ob None)). cbn [nolimit_sel].
+    rewrite <- E. apply (answer_nolimit (Sel d pr w [] ob None) rows rows' PS P).
+Qed.
